@@ -77,7 +77,7 @@ let () =
   let pid = if Array.length Sys.argv > 4 then Sys.argv.(4) else "" in
   (* which properties a predicate speaks about *)
   let relevant name = pid = "" || List.mem pid (match name with
-    | "mon16" -> ["C16"] | "runE" -> ["C03"; "C08"] | "runC" -> ["C03"; "C10"] | "runK" -> ["C03"; "C07"]
+    | "mon16" -> ["C16"] | "eager_b" -> ["C08"] | "runE" -> ["C03"; "C08"] | "runC" -> ["C03"; "C10"] | "runK" -> ["C03"; "C07"]
     | "chk" -> ["C03"; "C11"; "C12"] | "chkN" -> ["C11"; "C12"] | "once_b" -> ["C11"; "C12"] | "bal_b" -> ["C02"; "C05"] | _ -> []) in
   let nfail = ref 0 and neval = ref 0 in
   (try while true do
@@ -101,6 +101,7 @@ let () =
          if std && fixed_scan then check "mon16" (lazy (mon16 (nat_of_int n) t));
          if std && is_group && not has_ext then check "mon16" (lazy (mon16 O t));
          if comb = "merge" then check "runE" (lazy (some (runE polls)));
+         if comb = "merge" then check "eager_b" (lazy (eager_b live));
          if comb = "chain" then check "runC" (lazy (some (runC polls)));
          if comb = "race_ok" then check "runK" (lazy (some (runK polls)));
          if is_group && not has_ext then begin
